@@ -538,3 +538,4 @@ package transport
 //@   assert at return 3 b.uncompactedBytes == 0 && b.uncompactedSuffixLen == 0 && len(b.backlog) == old(len(b.backlog))
 //@   assert at return 4 b.uncompactedSuffixLen == old(b.uncompactedSuffixLen) + 1 && b.uncompactedSuffixLen <= len(b.backlog) && len(b.backlog) == old(len(b.backlog))
 //@   assert at call Get#1 arg0 == b.uncompactedBytes && b.uncompactedSuffixLen == old(b.uncompactedSuffixLen) + 1
+//@   assert at call Len#1 r.buffer != nil && b.uncompactedSuffixLen == old(b.uncompactedSuffixLen) + 1
